@@ -112,6 +112,14 @@ def translate_all(ctx):
                                                      "rspirv/grammar/autogen_glsl_std_450.rs", "GLSL_STD_450_INSTRUCTION_TABLE"))
     attempt("opencl", lambda: grammar_tables.parse_ext(read(f"{REPO}/rspirv/grammar/autogen_opencl_std_100.rs"),
                                                        "rspirv/grammar/autogen_opencl_std_100.rs", "OPENCL_STD_100_INSTRUCTION_TABLE"))
+    from translate import traversals
+
+    def trav():
+        R = traversals.parse(read(f"{REPO}/rspirv/dr/constructs.rs"), read(f"{REPO}/rspirv/binary/assemble.rs"))
+        lean_emit.emit_traversals(R, "Rspirv.Generated.Traversals", f"{GEN}/Traversals.lean",
+                                  "from rspirv/dr/constructs.rs and rspirv/binary/assemble.rs")
+        return R
+    attempt("traversals", trav)
     ctx.data["T"] = T
     ctx.data["translate_fails"] = fails
     if "header" in T:
